@@ -7,7 +7,7 @@ PROP = {
     "mutex_rewrite": True,
     "glue": "GH", "chk": "chk17", "explain": "explainH",
     "gotags": ["shim_memory", "shim_redis", "shim_timecache"],
-    "n": {"quick": 120, "thorough": 3000},
+    "n": {"quick": 120, "thorough": 1500},
     "rule": HIST_RULE + " Emphasis C17: totals after many operations incl. repeated puts, deletes of absent peers, expiry of whole swarms.",
     "tags": HIST_TAGS, "reasons": HIST_REASONS, "assumptions": HIST_ASSUMPTIONS,
     "trivial_tags": [], "min_tags": 4,
